@@ -1038,3 +1038,196 @@ Proof.
     + destruct ntime, nband; simpl; rewrite ?(eqb_neq n "time"), ?(eqb_neq n "band") by auto; reflexivity.
   - destruct ccn as [[n cc]|]; simpl in *; tauto.
 Qed.
+
+(* ------------------------------------------------------------------ wrap_xr = wrapped, per GeoBox class *)
+Definition wrap_attrs (nodata : option Q) (user : attrs) : attrs :=
+  let at_ := match nodata with Some v => aset "nodata" (VNum v) user | None => user end in
+  match nodata, lookup "nodata" user with Some _, Some u => aset "nodata" u at_ | _, _ => at_ end.
+
+Lemma clean_wrap_attrs nodata user : clean_attrs user -> clean_attrs (wrap_attrs nodata user).
+Proof.
+  intros (A1 & A2 & A3). unfold wrap_attrs, clean_attrs.
+  destruct nodata as [v|]; [|auto].
+  destruct (lookup "nodata" user); rewrite ?lookup_aset; simpl; auto.
+Qed.
+
+Definition crs_coord_of (name : option string) (c : option crs) (gcps : option (list gcp)) (t : option aff)
+  : option (string * coord) :=
+  match name, c with
+  | Some n, Some c => Some (n, mk_crs_coord c gcps t)
+  | _, _ => None
+  end.
+
+Definition cattrs_of (c : option crs) : attrs := match c with Some c => [("crs", VCrs c)] | None => [] end.
+
+Lemma wrap_xr_st tol g nt nb nd name user :
+  is_affine_st tol (g_aff g) = true ->
+  let t := g_aff g in
+  let yd := fst (crs_dims (g_crs g)) in
+  let xd := snd (crs_dims (g_crs g)) in
+  wrap_xr tol (ABox g) nt nb nd name user =
+  Ok (wrapped yd xd
+        (Coord [yd] (map (label (ff t) (fe t)) (iota (g_ny g)))
+               ([("units", VOther); ("resolution", VNum (fe t))] ++ cattrs_of (g_crs g)) None)
+        (Coord [xd] (map (label (fc t) (fa t)) (iota (g_nx g)))
+               ([("units", VOther); ("resolution", VNum (fa t))] ++ cattrs_of (g_crs g)) None)
+        (crs_coord_of name (g_crs g) None (Some t))
+        (g_ny g) (g_nx g) nt nb name (wrap_attrs nd user)).
+Proof.
+  intros Hst. unfold wrap_xr, xr_coords. cbn [box_crs box_shape]. rewrite Hst.
+  destruct (crs_dims_cases (g_crs g)) as [E|E]; rewrite E; cbn -[aset iota label];
+    destruct name as [n|], (g_crs g) as [c|]; reflexivity.
+Qed.
+
+Lemma wrap_xr_rot tol g nt nb nd name user :
+  is_affine_st tol (g_aff g) = false ->
+  let t := g_aff g in
+  let yd := fst (crs_dims (g_crs g)) in
+  let xd := snd (crs_dims (g_crs g)) in
+  wrap_xr tol (ABox g) nt nb nd name user =
+  Ok (wrapped yd xd
+        (Coord [yd] (map pix_label (iota (g_ny g))) [("units", VOther)] (Some t))
+        (Coord [xd] (map pix_label (iota (g_nx g))) [("units", VOther)] (Some t))
+        (crs_coord_of name (g_crs g) None (Some t))
+        (g_ny g) (g_nx g) nt nb name (wrap_attrs nd user)).
+Proof.
+  intros Hst. unfold wrap_xr, xr_coords. cbn [box_crs box_shape]. rewrite Hst.
+  destruct (crs_dims_cases (g_crs g)) as [E|E]; rewrite E; cbn -[aset iota pix_label];
+    destruct name as [n|], (g_crs g) as [c|]; reflexivity.
+Qed.
+
+Lemma wrap_xr_gcp tol ny nx a pts c ai nt nb nd name user :
+  aff_inv a = Some ai ->
+  let yd := fst (crs_dims c) in
+  let xd := snd (crs_dims c) in
+  wrap_xr tol (AGcp ny nx a pts c) nt nb nd name user =
+  Ok (wrapped yd xd
+        (Coord [yd] (map pix_label (iota ny)) [("units", VOther)] None)
+        (Coord [xd] (map pix_label (iota nx)) [("units", VOther)] None)
+        (crs_coord_of name c (Some (gcps_of ai pts)) None)
+        ny nx nt nb name (wrap_attrs nd user)).
+Proof.
+  intros Hi. unfold wrap_xr, xr_coords. cbn [box_crs box_shape]. rewrite Hi.
+  destruct (crs_dims_cases c) as [E|E]; rewrite E; cbn -[aset iota pix_label gcps_of];
+    destruct name as [n|], c as [c|]; reflexivity.
+Qed.
+
+Lemma nth_ap p q m k : 0 <= k < m -> nth (Z.to_nat k) (ap p q m) 0 = p + q * k.
+Proof.
+  intros H. unfold ap.
+  assert (E : nth_error (map (fun k0 => p + q * k0) (iota m)) (Z.to_nat k) = Some (p + q * k)).
+  { rewrite nth_error_map, nth_error_iota by lia. simpl. now rewrite Z2Nat.id by lia. }
+  eapply nth_error_nth in E. exact E.
+Qed.
+
+Lemma crs_coord_of_ok name c gcps t :
+  match crs_coord_of name c gcps t with
+  | Some p => name = Some (fst p) /\ co_dims (snd p) = [] /\ is_spatial_ref (snd p) = true
+  | None => True
+  end.
+Proof. destruct name, c; simpl; auto. Qed.
+
+Lemma crs_dims_pair c :
+  (fst (crs_dims c), snd (crs_dims c)) = ("y", "x") \/ (fst (crs_dims c), snd (crs_dims c)) = ("latitude", "longitude").
+Proof. destruct (crs_dims_cases c) as [E|E]; rewrite E; auto. Qed.
+
+(* ================================================================== main results: histories *)
+Lemma fallback_st tol t c :
+  is_affine_st tol t = true ->
+  fallback_of repaired tol (Some (mk_crs_coord c None (Some t))) false None = Ok (Some (fa t, fe t)).
+Proof.
+  intros Hst. unfold fallback_of. simpl. destruct t as [a b c0 d e f]. simpl.
+  unfold resolution_from_affine. rewrite Hst. reflexivity.
+Qed.
+
+Lemma ap_of_history d n h idx : 0 <= n -> axis_idx d (iota n) h = Ok idx ->
+  exists p q m, 0 <= m /\ idx = ap p q m /\ forall k, 0 <= k < m -> 0 <= p + q * k < n.
+Proof.
+  intros Hn E.
+  destruct (axis_idx_ap d h (iota n) idx (is_ap_iota n Hn) E) as ((p & q & m & Hm & ->) & Hincl).
+  exists p, q, m. split; [auto|]. split; [auto|]. intros k Hk.
+  assert (H : In (p + q * k) (iota n)).
+  { apply Hincl; unfold ap; apply in_map_iff; exists k; split; auto; apply In_iota; auto. }
+  apply In_iota in H; lia.
+Qed.
+
+(** axis-aligned GeoBox: after any history the recovered GeoBox has the remaining
+    shape, the CRS, and maps the centre of remaining pixel (j, k) to the labels
+    of original pixel (iy[j], ix[k]) -- which are the current coordinate labels. *)
+Lemma history_axis_aligned tol g nt nb nd name user h x0 x iy ix :
+  is_affine_st tol (g_aff g) = true -> 0 <= g_ny g -> 0 <= g_nx g ->
+  let t := g_aff g in
+  let yd := fst (crs_dims (g_crs g)) in
+  let xd := snd (crs_dims (g_crs g)) in
+  name_ok name yd xd -> clean_attrs user ->
+  wrap_xr tol (ABox g) nt nb nd name user = Ok x0 ->
+  run_history x0 h = Ok x ->
+  axis_idx yd (iota (g_ny g)) h = Ok iy -> axis_idx xd (iota (g_nx g)) h = Ok ix ->
+  1 <= zlen iy -> 1 <= zlen ix ->
+  ((2 <= zlen iy /\ 2 <= zlen ix) \/ (name <> None /\ g_crs g <> None)) ->
+  exists T,
+    locate_geo_info repaired tol x =
+      Ok (GeoState (Some (yd, xd)) (g_crs g) (Some T) (Some (ABox (GBox (zlen iy) (zlen ix) T (g_crs g))))) /\
+    fb T == 0 /\ fd T == 0 /\
+    (exists cy cx, lookup yd (x_coords x) = Some cy /\ lookup xd (x_coords x) = Some cx /\
+                   co_vals cy = map (label (ff t) (fe t)) iy /\ co_vals cx = map (label (fc t) (fa t)) ix) /\
+    (forall j k, 0 <= j < zlen iy -> 0 <= k < zlen ix ->
+       fst (aff_apply T (inject_Z k + (1 # 2)) (inject_Z j + (1 # 2))) == label (fc t) (fa t) (nth (Z.to_nat k) ix 0) /\
+       snd (aff_apply T (inject_Z k + (1 # 2)) (inject_Z j + (1 # 2))) == label (ff t) (fe t) (nth (Z.to_nat j) iy 0)) /\
+    (2 <= zlen ix -> exists px qx, ix = ap px qx (zlen ix) /\ fa T == fa t * inject_Z qx /\
+                                   fc T == fc t + fa t * inject_Z px + fa t / 2 - fa t * inject_Z qx / 2) /\
+    (2 <= zlen iy -> exists py qy, iy = ap py qy (zlen iy) /\ fe T == fe t * inject_Z qy /\
+                                   ff T == ff t + fe t * inject_Z py + fe t / 2 - fe t * inject_Z qy / 2) /\
+    (zlen ix = 1 -> fa T == fa t) /\ (zlen iy = 1 -> fe T == fe t).
+Proof.
+  intros Hst Hny Hnx t yd xd Hname Hclean Hw Hh Hiy Hix Ly Lx Hfb.
+  rewrite (wrap_xr_st tol g nt nb nd name user Hst) in Hw. injection Hw as <-.
+  fold t yd xd in Hh.
+  set (ccn := crs_coord_of name (g_crs g) None (Some t)) in *.
+  assert (Hne : yd <> xd).
+  { subst yd xd. destruct (crs_dims_cases (g_crs g)) as [E|E]; rewrite E; discriminate. }
+  pose proof (wrapped_georef yd xd (label (ff t) (fe t)) (label (fc t) (fa t))
+                ([("units", VOther); ("resolution", VNum (fe t))] ++ cattrs_of (g_crs g))
+                ([("units", VOther); ("resolution", VNum (fa t))] ++ cattrs_of (g_crs g))
+                None None ccn (g_ny g) (g_nx g) nt nb name (wrap_attrs nd user)
+                (crs_dims_pair (g_crs g)) Hname (clean_wrap_attrs nd user Hclean) Hny Hnx
+                (crs_coord_of_ok name (g_crs g) None (Some t))) as G0.
+  destruct (georef_history _ _ _ _ _ _ _ _ _ _ Hne h _ _ _ _ G0 Hh) as (iy' & ix' & A1 & A2 & G).
+  rewrite Hiy in A1; injection A1 as <-. rewrite Hix in A2; injection A2 as <-.
+  destruct (ap_of_history yd (g_ny g) h iy Hny Hiy) as (py & qy & my & Hmy & -> & Ry).
+  destruct (ap_of_history xd (g_nx g) h ix Hnx Hix) as (px & qx & mx & Hmx & -> & Rx).
+  rewrite !zlen_ap in * by auto.
+  destruct (locate_georef (label (fc t) (fa t)) (label (ff t) (fe t)) (fc t) (fa t) (ff t) (fe t)
+              (label_spec _ _) (label_spec _ _) repaired tol yd xd _ _ None None name ccn
+              px qx mx py qy my x G Lx Ly) as (T & E & P1 & P2 & P3 & P4 & P5 & P6 & P7).
+  { destruct Hfb as [[? ?]|[Hn Hc]]; [left; auto|right].
+    subst ccn. destruct name as [n|]; [|congruence]. destruct (g_crs g) as [c|]; [|congruence].
+    simpl. eexists. apply fallback_st. exact Hst. }
+  assert (Hgcp : match ccn with Some p => extract_gcps (snd p) | None => None end = None).
+  { subst ccn. destruct name, (g_crs g); reflexivity. }
+  assert (Hcrs : match ccn with
+                 | Some p => extract_crs (snd p)
+                 | None => hd_error (attr_crs_candidates ([("units", VOther); ("resolution", VNum (fe t))] ++ cattrs_of (g_crs g)) ++
+                                     attr_crs_candidates ([("units", VOther); ("resolution", VNum (fa t))] ++ cattrs_of (g_crs g)))
+                 end = g_crs g).
+  { subst ccn. destruct name, (g_crs g); reflexivity. }
+  rewrite Hgcp, Hcrs in E. simpl in E.
+  exists T. split; [exact E|]. split; [exact P1|]. split; [exact P2|].
+  split.
+  { eexists _, _. split; [apply (gr_cy _ _ _ _ _ _ _ _ _ _ _ _ _ G)|].
+    split; [apply (gr_cx _ _ _ _ _ _ _ _ _ _ _ _ _ G)|]. split; reflexivity. }
+  split.
+  { intros j k Hj Hk. rewrite !nth_ap by auto. apply P3; auto. }
+  split. { intros H. exists px, qx. split; auto. }
+  split. { intros H. exists py, qy. split; auto. }
+  assert (Hfbv : forall r, fallback_of repaired tol (option_map snd ccn)
+                             (is_some match ccn with Some p => extract_gcps (snd p) | None => None end)
+                             (if is_some match ccn with Some p => extract_gcps (snd p) | None => None end then None else None)
+                           = Ok (Some r) -> r = (fa t, fe t)).
+  { intros r. rewrite Hgcp. simpl. subst ccn. destruct name as [n|], (g_crs g) as [c|]; simpl;
+      try (intros Hr; discriminate Hr).
+    fold t. rewrite (fallback_st tol t c Hst). intros Hr; injection Hr as <-. reflexivity. }
+  split.
+  { intros H. destruct (P6 H) as (r & Fr & Er). rewrite (Hfbv r Fr) in Er. exact Er. }
+  { intros H. destruct (P7 H) as (r & Fr & Er). rewrite (Hfbv r Fr) in Er. exact Er. }
+Qed.
